@@ -12,7 +12,8 @@ def main():
     c.add_argument("--tier", default=os.environ.get("VERIF_TIER", "quick"), choices=["quick", "thorough"])
     r = sub.add_parser("replay")
     r.add_argument("path")
-    sub.add_parser("selftest")
+    st = sub.add_parser("selftest")
+    st.add_argument("what", nargs="*")
     a = ap.parse_args()
     seed = int(os.environ.get("VERIF_SEED", "0") or 0)
     if a.cmd == "check":
@@ -51,7 +52,7 @@ def main():
         sys.exit(1 if out.get("violated") else 0)
     if a.cmd == "selftest":
         from . import selftest
-        sys.exit(selftest.main())
+        sys.exit(selftest.main(a.what))
 
 
 if __name__ == "__main__":
